@@ -132,6 +132,10 @@ class Scheduler:
                 t.state = "runnable"
                 self.timeouts_fired += 1
                 self.timeout_events.append((t.name, repr(t.blocked_on)))
+                if self.timeouts_fired == 1:
+                    self.first_timeout_map = [(x.name, x.state, repr(x.blocked_on), x.timed) for x in live]
+                    if getattr(self, "on_first_timeout", None):
+                        self.on_first_timeout(self)
                 continue
             self._start_abort(("deadlock", [(t.name, repr(t.blocked_on)) for t in live]))
         if self.abort:
